@@ -20,6 +20,10 @@ func runC04(p *Program, r *Report) {
 	ruleR043(p, r)
 	r.Rule("R04.4", "E2", 2, "values are protected for the column's client: both dialects pass to EncryptWithClientID the client id of the column setting when it has one and the connection's client id otherwise")
 	ruleR044(p, r)
+	r.Rule("R04.6", "E4+E3", 4, "one pending statement per result: every message that ends the result of an Execute/Query - CommandComplete, EmptyQueryResponse, PortalSuspended, ErrorResponse - removes the statement at the head of the pending queue (an entry is added for each Execute, so a terminator that does not remove one shifts every later row onto an earlier statement's column settings)")
+	ruleR046(p, r)
+	r.Rule("R04.7", "E2", 2, "placeholder numbers of a multi-row INSERT are checked against all values of the statement: in both dialects the bound handed to updatePlaceholderMap while walking the VALUES tuples is a running total over the tuples, not the width of the current one")
+	ruleR047(p, r)
 	r.Rule("R04.5", "E3", 1, "the settings-only MySQL query observer never encrypts: every path to the data encryptor of encryptor/mysql.QueryDataEncryptor passes the 'encryptor == nil' guard, in the function or in all of its callers")
 	ruleR045(p, r)
 }
@@ -410,4 +414,70 @@ func init() {
 	mut("C04", "mysql bound value set back unencrypted", "encryptor/mysql/queryDataEncryptor.go", "		err = values[valueIndex].SetData(encryptedData, setting)", "		_ = encryptedData\n		err = values[valueIndex].SetData(valueData, setting)", "R04.3", "bound value")
 	mut("C04", "column client id ignored", "encryptor/postgresql/queryDataEncryptor.go", "	return encryptor.encryptor.EncryptWithClientID(clientID, data, columnSetting)", "	return encryptor.encryptor.EncryptWithClientID(accessContext.GetClientID(), data, columnSetting)", "R04.4", "EncryptWithClientID")
 	mut("C04", "mysql update path loses the nil guard", "encryptor/mysql/queryDataEncryptor.go", "	if encryptor.encryptor == nil {\n		return false, encryptor.onReturning(ctx, update.Returning, fromTables)\n	}\n", "", "R04.5", "nil guard")
+}
+
+func ruleR046(p *Program, r *Report) {
+	fn := p.Func("decryptor/postgresql.(*PgProtocolState).HandleDatabasePacket")
+	if fn == nil || fn.Blocks == nil {
+		r.Anchor("R04.6", "HandleDatabasePacket")
+		return
+	}
+	rm := callNamedIn(fn, "RemoveNextPendingPacket")
+	if rm == nil {
+		r.Bad("R04.6", fnName(fn), "pending entry removed", p.Pos(fn.Pos()), "HandleDatabasePacket never removes a pending statement")
+		return
+	}
+	for _, pred := range []string{"IsCommandComplete", "IsEmptyQueryResponse", "IsPortalSuspended", "IsErrorResponse"} {
+		ok, why := false, "the message type is not tested"
+		for _, c := range callsNamed(fn, pred) {
+			// the true edge of this test (directly or through the || chain) must be able to reach the removal,
+			// and must not end in a return before it
+			for _, i := range ifsOn(c) {
+				t := i.Block().Succs[0]
+				if t == rm.Block() || reaches(t, rm.Block(), nil) {
+					ok = true
+				} else {
+					why = "its branch returns without removing the pending statement"
+				}
+			}
+		}
+		r.Check(ok, "R04.6", fnName(fn), pred+" removes the pending statement", p.Pos(rm.Pos()), "true edge reaches RemoveNextPendingPacket", why+": after such a result the queue keeps a finished statement at its head and the rows of every later statement are decoded with the wrong column settings")
+	}
+}
+
+func ruleR047(p *Program, r *Report) {
+	for _, spec := range []string{"encryptor/postgresql.(*QueryDataEncryptor).getInsertPlaceholders", "encryptor/mysql.(*QueryDataEncryptor).getInsertPlaceholders"} {
+		fn := p.Func(spec)
+		if fn == nil || fn.Blocks == nil {
+			r.Anchor("R04.7", spec)
+			continue
+		}
+		upd := callNamedIn(fn, "updatePlaceholderMap")
+		ok, why := false, "no updatePlaceholderMap call"
+		if upd != nil {
+			bound := plainArgs(upd)[0]
+			why = "the bound is not accumulated over the VALUES tuples"
+			for v := range backClosure(bound) {
+				phi, isPhi := v.(*ssa.Phi)
+				if !isPhi {
+					continue
+				}
+				for _, e := range phi.Edges {
+					if bo, isBo := e.(*ssa.BinOp); isBo && bo.Op.String() == "+" {
+						_, lx := isLenCall(bo.X)
+						_, ly := isLenCall(bo.Y)
+						if (backClosure(bo.X)[phi] && ly) || (backClosure(bo.Y)[phi] && lx) {
+							ok = true
+						}
+					}
+				}
+			}
+		}
+		r.Check(ok, "R04.7", fnName(fn), "placeholder bound is the running total of values", p.Pos(fn.Pos()), "valuesCount += len(tuple)", why+": placeholders of the second and later tuples are rejected as invalid, OnBind fails and the proxy forwards the Bind unchanged - every bound value of the INSERT reaches the database as plaintext")
+	}
+}
+
+func init() {
+	mut("C04", "PortalSuspended no longer pops the pending statement", "decryptor/postgresql/protocol.go", "	if packet.IsCommandComplete() || packet.IsEmptyQueryResponse() || packet.IsPortalSuspended() || packet.IsErrorResponse() {", "	if packet.IsPortalSuspended() {\n		p.lastPacketType = OtherPacket\n		return nil\n	}\n	if packet.IsCommandComplete() || packet.IsEmptyQueryResponse() || packet.IsErrorResponse() {", "R04.6", "IsPortalSuspended")
+	mut("C04", "pg placeholder bound is the width of one tuple", "encryptor/postgresql/queryDataEncryptor.go", "		valuesCount += len(values)", "		valuesCount = len(values)", "R04.7", "running total")
 }
